@@ -252,6 +252,18 @@ class Walker:
         if isinstance(n, ast.BinOp):
             a = self.ex(n.left, st)
             b = self.ex(n.right, st)
+            if isinstance(a, Cond) and isinstance(b, Cond) and isinstance(n.op, (ast.BitAnd, ast.BitOr)):
+                isand = isinstance(n.op, ast.BitAnd)
+                items = []
+                for c in (a, b):
+                    if c.is_const():
+                        if c.op != isand:
+                            return Cond.const(c.op)
+                        continue
+                    items.append(c)
+                if not items:
+                    return Cond.const(isand)
+                return items[0] if len(items) == 1 else Cond('and' if isand else 'or', items=items)
             if isinstance(a, Cond):
                 a = self.cond_as_num(a)
             if isinstance(b, Cond):
@@ -264,7 +276,10 @@ class Walker:
                 return Rat.atom('(%s %s %s)' % (self.canon(a), type(n.op).__name__, self.canon(b)))
             f = _BIN.get(type(n.op))
             if f is not None:
-                if isinstance(n.op, ast.Div) and b.n.iszero():
+                if isinstance(n.op, ast.Div) and self.rel.is_zero(b):
+                    self.seq += 1
+                    st.events.append(Event('divzero', name=self.canon(a), node=n, conds=tuple(st.conds),
+                                           loops=tuple(st.loops), seq=self.seq))
                     return Rat.atom('(%s / 0)' % self.canon(a))
                 return f(a, b)
             if isinstance(n.op, ast.Pow):
@@ -430,6 +445,10 @@ class Walker:
                     c = a0.constval()
                     return Rat.const(math.floor(c) if fname == 'floor' or c >= 0 else -math.floor(-c))
                 return Rat.atom('%s(%s)' % (fname, self.canon(a0)))
+            if fname == 'list' and not args:
+                return []
+            if fname in ('list', 'tuple') and len(args) == 1 and isinstance(a0, (list, tuple)):
+                return list(a0) if fname == 'list' else tuple(a0)
             if fname in self.inline:
                 v = self.inline_call(self.inline[fname], args, kwargs, st)
                 if v is not None:
@@ -439,10 +458,13 @@ class Walker:
             if recv is None:
                 recv = self.ex(fn.value, st) if isinstance(fn, ast.Attribute) else self.ex(fn, st)
             if isinstance(fn, ast.Attribute):
+                if isinstance(recv, list) and fn.attr == 'append' and len(args) == 1:
+                    new = list(recv) + [args[0]]
+                    for k, v in list(st.env.items()):
+                        if v is recv:
+                            st.env[k] = new
+                    return None
                 text = '%s.%s(%s)' % (self.base_text(recv), fn.attr, self.argtext(args, kwargs))
-                key = fn.attr
-                if key in self.inline and ('.' + key) in self.inline.get('__methods__', ()):
-                    pass
             else:
                 text = '%s(%s)' % (self.base_text(recv), self.argtext(args, kwargs))
         self.seq += 1
@@ -834,8 +856,28 @@ class Walker:
         return t2
 
     def _apply_equalities(self, c, st):
-        """branch condition `name == const` -> substitute on that branch"""
+        """branch condition `name == const` -> substitute on that branch;
+        `linear expression == 0` -> solve for one atom and substitute"""
         for cj in c.conjuncts():
+            if cj.kind == 'cmp' and cj.op == '==' and isinstance(cj.a, Rat) and isinstance(cj.b, Rat) \
+                    and not (cj.a.single_atom() and cj.b.isconst()) and not (cj.b.single_atom() and cj.a.isconst()):
+                d = cj.a - cj.b
+                if d.ispoly():
+                    for t in sorted(d.n.atoms()):
+                        if d.n.degree_in(t) == 1:
+                            co = d.n.coeff(t, 1)
+                            if co.isconst():
+                                restp = d.n.coeff(t, 0)
+                                sol = Rat(-restp) / Rat(co)
+                                for k, v in list(st.env.items()):
+                                    if isinstance(v, Rat) and t in v.atoms():
+                                        st.env[k] = v.subst(t, sol)
+                                    elif isinstance(v, (list, tuple)):
+                                        st.env[k] = type(v)(x.subst(t, sol) if isinstance(x, Rat) and t in x.atoms() else x for x in v)
+                                st.env.setdefault('__eqs__', [])
+                                st.env['__eqs__'] = st.env['__eqs__'] + [(t, sol)]
+                                break
+                continue
             if cj.kind == 'cmp' and cj.op == '==':
                 for x, y in ((cj.a, cj.b), (cj.b, cj.a)):
                     if isinstance(x, Rat) and isinstance(y, Rat) and y.isconst():
@@ -876,6 +918,8 @@ class Walker:
                 st2 = st.fork()
                 st2.conds.extend(o.state.conds)
                 st2.events.extend(o.state.events)
+                for c_, _n in o.state.conds:
+                    self._apply_equalities(c_, st2)
                 res.append((st2, o.value))
             return res
         return None
